@@ -160,6 +160,13 @@ func (e *Engine) verifyFunc(key string) (ctx *FuncCtx) {
 		c.declOnce(name, srt)
 		v := &Val{T: t, S: name, Sort: srt}
 		st.assume(e.typeFacts(name, t))
+		if sl, ok := under(t).(*types.Slice); ok {
+			// where the window starts inside its backing array is not
+			// observable: take offset 0
+			bn := name + "_base"
+			c.declOnce(bn, fmt.Sprintf("(Array Int %s)", e.sortOf(sl.Elem())))
+			v = &Val{T: t, S: app("mk_"+srt, bn, "0", app("len_"+srt, name), app("nil_"+srt, name)), Sort: srt}
+		}
 		if obj, ok := e.info.Defs[id].(*types.Var); ok && obj != nil {
 			st.vars[obj] = v
 			c.params[obj] = true
